@@ -570,19 +570,31 @@ theorem binv_agReport (s : State) (n c e m : String) (hA : AInv s) (hB : BInv s)
         exact binv_wrap (BE.trans' (be_storeFatal _ _) (be_reply _ _ _ _)) (by simp)
           (binv_agStep s a _ _ is e hA hB ha hp hc hnm hst.2 hst.1)
 
-theorem binv_wakeAgent (s : State) (hA : AInv s) (hB : BInv s) : ∀ s', wakeAgent s = some s' → BInv s' := by
+theorem binv_renderWoken (l : Bool) (s : State) (hA : AInv s) (hB : BInv s) : ∀ s', renderWoken l s = some s' → BInv s' := by
+  intro s' h
+  unfold renderWoken at h
+  split at h
+  · cases h
+  · rename_i a hf
+    have ha : a ∈ s.agents := pickAgent_mem hf
+    cases h
+    apply binv_wrap (be_answer _ _ _ _) (by simp)
+    apply binv_of_be (be_setAgent _ _) _ hB
+    rw [setAgent_agents]
+    exact acls_repl_same s.agents a _ hA.nodup ha rfl (by simp [cls])
+
+theorem binv_wakeAgent (l : Bool) (s : State) (hA : AInv s) (hB : BInv s) : ∀ s', wakeAgent l s = some s' → BInv s' := by
   intro s' h
   unfold wakeAgent at h
   split at h
   · cases h
   · rename_i a hf
-    have ha : a ∈ s.agents := List.mem_of_find?_eq_some hf
+    have ha : a ∈ s.agents := pickAgent_mem hf
     dsimp only at h
     split at h
     · rename_i hst
       have hr : a.st = .ready := by simpa using hst
       cases h
-      apply binv_wrap (be_answer _ _ _ _) (by simp)
       apply binv_of_be (be_setAgent _ _) _ hB
       rw [setAgent_agents]
       exact acls_repl_same s.agents a _ hA.nodup ha rfl (by simp [cls, hr])
@@ -1153,16 +1165,17 @@ theorem binvO_platformMove (lifo : Bool) (s : State) (hA : AInv s) (hB : BInv s)
     obtain ⟨f, _, hm⟩ := firstSome_spec _ _ _ hs
     exact BInvO.of_beO hB (beO_flightMove s f) (flightMove_agents s f) s' hm
 
-theorem binvO_wakeMove (s : State) (hA : AInv s) (hB : BInv s) : BInvO (wakeMove s) := by
+theorem binvO_wakeMove (l : Bool) (s : State) (hA : AInv s) (hB : BInv s) : BInvO (wakeMove l s) := by
   intro s' hs
   unfold wakeMove orElse' at hs
   split at hs
   · rename_i x hx; cases hs; exact binv_wrap (be_wakeRt hx) (wakeRt_agents hx) hB
-  · exact binv_wakeAgent s hA hB s' hs
+  · exact binv_wakeAgent l s hA hB s' hs
 
 theorem binvO_progress (v : Nat) (s : State) (hA : AInv s) (hB : BInv s) : BInvO (progress v s) := by
   have hp := fun l => binvO_platformMove l s hA hB
-  have hw := binvO_wakeMove s hA hB
+  have hw := fun l => binvO_wakeMove l s hA hB
+  have hr : ∀ l, BInvO (renderWoken l s) := fun l => binv_renderWoken l s hA hB
   have hk := BInvO.of_beO hB (beO_killMove s) (killMove_agents s)
   unfold progress
   splits <;> first
@@ -1170,19 +1183,22 @@ theorem binvO_progress (v : Nat) (s : State) (hA : AInv s) (hB : BInv s) : BInvO
     | (rw [binvO_some]; apply binv_watchOne
        · show AInvL _; exact hA
        · refine binv_of_beo ?_ (Or.inr ?_) ?_ ?_ ?_ ?_ hB <;> simp)
-    | exact binvO_orElse' hw (binvO_orElse' (hp _) hk)
-    | exact binvO_orElse' (hp _) (binvO_orElse' hw hk)
-    | exact binvO_orElse' (hp _) (binvO_orElse' hk hw)
+    | exact binvO_orElse' (binvO_orElse' (hw _) (binvO_orElse' (hp _) hk)) (hr _)
+    | exact binvO_orElse' (binvO_orElse' (hp _) (binvO_orElse' (hw _) hk)) (hr _)
+    | exact binvO_orElse' (binvO_orElse' (hp _) (binvO_orElse' hk (hw _))) (hr _)
+    | exact binvO_orElse' (hr _) (binvO_orElse' (hw _) (binvO_orElse' (hp _) hk))
+    | exact binvO_orElse' (hr _) (binvO_orElse' (hp _) (binvO_orElse' (hw _) hk))
+    | exact binvO_orElse' (hr _) (binvO_orElse' (hp _) (binvO_orElse' hk (hw _)))
 
 theorem abinv_settle (v n : Nat) (s : State) (hA : AInv s) (hB : BInv s) : AInv (settle v n s) ∧ BInv (settle v n s) := by
-  induction n generalizing s with
+  induction n generalizing v s with
   | zero => exact ⟨hA, hB⟩
   | succ n ih =>
     unfold settle
     split
     · exact ⟨hA, hB⟩
     · rename_i s' hp
-      exact ih s' (ainvO_progress v s hA s' hp) (binvO_progress v s hA hB s' hp)
+      exact ih _ s' (ainvO_progress v s hA s' hp) (binvO_progress v s hA hB s' hp)
 
 theorem binv_applyOp (s : State) (o : Op) (hA : AInv s) (hB : BInv s) : BInv (applyOp s o) := by
   cases o with
